@@ -12,6 +12,19 @@ STN = "nrel/hive/model/station/station.py::Station."
 _G = {}
 
 
+class NS_:
+    def __init__(self, d):
+        self.__dict__.update(d)
+
+
+def WF_PRE(a):
+    return wf(a.sim)
+
+
+def WF_KEPT(a, r):
+    return Implies(ok(r), wf(r[1].val()))
+
+
 def W():
     return _G["world"]
 
@@ -30,9 +43,13 @@ def base_station(b):
     return Sym(OptTy(StrT), f(b.e if isinstance(b, Sym) else coerce(b, StrT)))
 
 
-def wf_bases(sim):
+def wf_bases_def(bases):
     b = bound(StrT, "b_wf")
-    return forall([b], Implies(sim.bases.has(b), sim.bases.get(b).val().station_id == base_station(b)))
+    return forall([b], Implies(bases.has(b), bases.get(b).val().station_id == base_station(b)))
+
+
+def wf_bases(sim):
+    return pred("wfb", wf_bases_def, sim.bases)
 
 
 # ---------------------------------------------------------------- descriptor table as spec functions
@@ -82,6 +99,11 @@ def l1_instances(V, k, newv):
 
 
 def inv02(sim):
+    return pred("inv02", inv02_def, sim.stations, sim.bases, sim.vehicles)
+
+
+def inv02_def(stations, bases, vehicles):
+    sim = NS_({"stations": stations, "bases": bases, "vehicles": vehicles})
     s, c, b = bound(StrT, "s_i2"), bound(StrT, "c_i2"), bound(StrT, "b_i2")
     stn = sim.stations.get(s).val()
     cs = stn.state.get(c).val()
@@ -195,6 +217,7 @@ def register(R):
         upd = f"updated_{kind}"
         s = R.spec(SO + f"modify_{kind}")
         s.opaque = True
+        s.unfold = {"inv08"}
         s.requires("inv", (lambda kind: lambda a: inv08(a.sim, [kind]))(kind))
 
         def post(a, r, ents=ents, loc=loc, search=search, upd=upd, kind=kind):
@@ -222,6 +245,7 @@ def register(R):
 
     s = R.spec(SO + "remove_request")
     s.opaque = True
+    s.unfold = {"inv08"}
     s.requires("inv", lambda a: inv08(a.sim, ["request"]))
     s.ensures("removed", lambda a, r: And(Or(ok(r), failed(r)), Iff(ok(r), a.sim.requests.has(a.request_id)),
               Implies(ok(r), And(r[1].val().requests == a.sim.requests.delete(a.request_id),
@@ -259,10 +283,12 @@ def register(R):
     def exit_spec(cname, expect):
         s = R.spec(key(cname, "exit"), arg_types={"next_state": VST()})
         s.opaque = True
-        s.requires("wf", lambda a: wf(a.sim))
+        s.requires("wf", WF_PRE)
         s.ensures("releases_exactly", lambda a, r: Implies(ok(r), expect(a, r[1].val())), ("C02", "C09", "C17"))
-        s.ensures("wf_kept", lambda a, r: Implies(ok(r), wf(r[1].val())), ("C08",))
+        s.ensures("wf_kept", WF_KEPT, ("C08",))
         s.no_raise(("C02",))
+        if cname in ("ReserveBase", "ChargingBase"):
+            s.unfold = {"wfb"}
         return s
 
     for cname in SIMPLE_EXIT:
@@ -313,15 +339,17 @@ def register(R):
         """allowed(a, n): the activity the vehicle ends up in; expect(a, s2, n): resources taken, everything else equal"""
         s = R.spec(key(cname, "enter"))
         s.opaque = True
-        s.requires("wf", lambda a: wf(a.sim))
+        s.requires("wf", WF_PRE)
 
         def post(a, r):
             s2 = r[1].val()
             n = s2.vehicles.get(a.self.vehicle_id).val().vehicle_state
             return Implies(ok(r), And(a.sim.vehicles.has(a.self.vehicle_id), allowed(a, n), expect(a, s2, n)))
         s.ensures("acquires_exactly", post, ("C02", "C07", "C09", "C10", "C17") + tuple(extra_props))
-        s.ensures("wf_kept", lambda a, r: Implies(ok(r), wf(r[1].val())), ("C08",))
+        s.ensures("wf_kept", WF_KEPT, ("C08",))
         s.no_raise(("C02",))
+        if cname in ("ReserveBase", "ChargingBase"):
+            s.unfold = {"wfb"}
         return s
 
     def veh(a):
